@@ -16,6 +16,6 @@ for k in (1, 2, 3):
     shutil.copy(f"{src}/demo{k}.py", f"{dst}/demo.py")
     meta = json.load(open(f"{src}/meta{k}.json"))
     meta["property"] = pid
-    meta["round"] = 1 if off == 0 else 2
+    meta["round"] = int(sys.argv[4]) if len(sys.argv) > 4 else (1 if off == 0 else 2)
     json.dump(meta, open(f"{dst}/meta.json", "w"), indent=1)
     print(dst, "-", str(meta.get("summary"))[:150])
